@@ -391,7 +391,7 @@ var clauseKeywords = map[string]bool{
 	"use": true, "split": true, "reveal": true, "inline": true, "induction": true, "trigger": true,
 	"unroll": true, "assert": true, "inst": true, "nounfold": true, "unfold": true, "timeout": true,
 	"bounded": true, "havocs": true, "pure": true, "reads": true, "modifies": true, "decreases": true,
-	"effects": true, "case": true,
+	"effects": true, "case": true, "fuel": true, "instdepth": true, "useret": true, "initphase": true, "note": true,
 }
 
 // ParseSpecFile reads a contract file. Lines of interest start with "//@" (in .go files) or are
@@ -583,7 +583,7 @@ func ParseSpecFile(path string, pkgPath string) (*SpecFile, error) {
 					return nil, perr(l, "%v", err)
 				}
 				c.E = e
-			case "use", "trigger", "unfold":
+			case "use", "trigger", "unfold", "useret":
 				e, err := ParseExpr(rest)
 				if err != nil {
 					return nil, perr(l, "%v", err)
@@ -600,7 +600,7 @@ func ParseSpecFile(path string, pkgPath string) (*SpecFile, error) {
 					curLem.Trigger = call
 				}
 				curLem.Clauses = append(curLem.Clauses, c)
-			case curL != nil && (kw == "invariant" || kw == "use" || kw == "split" || kw == "reveal" || kw == "unroll" || kw == "inst" || kw == "unfold" || kw == "timeout" || kw == "nounfold"):
+			case curL != nil && kw != "requires" && kw != "ensures" && kw != "assigns" && kw != "useret":
 				curL.Clauses = append(curL.Clauses, c)
 			case curF != nil:
 				curF.Clauses = append(curF.Clauses, c)
